@@ -24,15 +24,25 @@ import (
 
 	vs "github.com/BlackVectorOps/semantic_firewall/v3/internal/verifsim"
 	"github.com/BlackVectorOps/semantic_firewall/v3/internal/verifsim/gogen"
+	"github.com/BlackVectorOps/semantic_firewall/v3/pkg/analysis/topology"
+	"github.com/BlackVectorOps/semantic_firewall/v3/pkg/detection"
 	"github.com/BlackVectorOps/semantic_firewall/v3/pkg/models"
+	"github.com/BlackVectorOps/semantic_firewall/v3/pkg/storage/jsondb"
 )
 
+type truthFunc struct {
+	line    int    // physical line in the file
+	adjFile string // file name after //line directives ("" = the file itself)
+	adjLine int
+}
+
 type truthFile struct {
-	rel        string // relative to the target dir
+	rel         string // relative to the target dir
 	mustCollect bool
-	compilable bool
-	oversize   bool
-	lines      []int // lines of functions / methods / function literals with bodies
+	compilable  bool
+	oversize    bool
+	lines       []int // physical lines of functions / methods / function literals with bodies
+	funcs       []truthFunc
 }
 
 type c16Tree struct {
@@ -44,26 +54,37 @@ type c16Tree struct {
 
 var c16Map = map[uint64]*c16Tree{}
 
-func funcLines(src string) ([]int, error) {
+func funcLines(src string) ([]int, []truthFunc, error) {
 	fset := token.NewFileSet()
-	f, err := parser.ParseFile(fset, "x.go", src, 0)
+	f, err := parser.ParseFile(fset, "x.go", src, parser.ParseComments)
 	if err != nil {
-		return nil, err
+		return nil, nil, err
 	}
 	var lines []int
+	var funcs []truthFunc
+	add := func(pos token.Pos) {
+		raw := fset.PositionFor(pos, false)
+		adj := fset.PositionFor(pos, true)
+		tf := truthFunc{line: raw.Line, adjLine: adj.Line}
+		if adj.Filename != raw.Filename {
+			tf.adjFile = filepath.Base(adj.Filename)
+		}
+		lines = append(lines, raw.Line)
+		funcs = append(funcs, tf)
+	}
 	ast.Inspect(f, func(n ast.Node) bool {
 		switch x := n.(type) {
 		case *ast.FuncDecl:
 			if x.Body != nil {
-				lines = append(lines, fset.Position(x.Name.Pos()).Line)
+				add(x.Name.Pos())
 			}
 		case *ast.FuncLit:
-			lines = append(lines, fset.Position(x.Type.Func).Line)
+			add(x.Type.Func)
 		}
 		return true
 	})
 	sort.Ints(lines)
-	return lines, nil
+	return lines, funcs, nil
 }
 
 func getC16Tree(seed uint64) (*c16Tree, error) {
@@ -99,11 +120,12 @@ func getC16Tree(seed uint64) (*c16Tree, error) {
 		}
 		tf := &truthFile{rel: rel, mustCollect: must, compilable: compilable}
 		if must && compilable {
-			ls, err := funcLines(src)
+			ls, fs, err := funcLines(src)
 			if err != nil {
 				return fmt.Errorf("ground truth for %s: %w", rel, err)
 			}
 			tf.lines = ls
+			tf.funcs = fs
 		}
 		c.files[rel] = tf
 		return nil
@@ -441,21 +463,29 @@ func runC16(t *vs.Tape, cfg map[string]string) (res vs.Result) {
 		}
 		// analysed: every function with a body of this file, at its real file and line
 		have := map[int]bool{}
+		haveAdj := map[string]bool{}
 		abs := filepath.Join(tr.target, rel)
 		for _, fn := range fo.Functions {
 			if fn.File == abs {
 				have[fn.Line] = true
 			}
+			haveAdj[fmt.Sprintf("%s:%d", filepath.Base(fn.File), fn.Line)] = true
 			if fn.Fingerprint == "" {
 				res.Violation = vs.Violationf("C16/empty-fingerprint", "%s: function %s has no fingerprint", rel, fn.Function)
 				return
 			}
 		}
-		for _, ln := range tf.lines {
-			if !have[ln] {
-				res.Violation = vs.Violationf("C16/function-missing", "%s: the function / method / literal with a body at line %d is not in the report (attributed to its real file and line)", rel, ln)
-				return
+		for _, tfn := range tf.funcs {
+			// a function after a //line directive is attributed to the position the
+			// directive names; either attribution is its "real file and line"
+			if have[tfn.line] || (tfn.adjFile != "" && haveAdj[fmt.Sprintf("%s:%d", tfn.adjFile, tfn.adjLine)]) {
+				continue
 			}
+			res.Violation = vs.Violationf("C16/function-missing", "%s: the function / method / literal with a body at line %d is not in the report (attributed to its real file and line)", rel, tfn.line)
+			return
+		}
+		if len(tf.funcs) > 0 && tf.funcs[len(tf.funcs)-1].adjFile != "" {
+			c.Inc("probe_files_with_line_directive")
 		}
 		c.Inc("files_analysed_ok")
 		c.Add("functions_accounted", int64(len(tf.lines)))
@@ -476,4 +506,102 @@ func TestVerifC16(t *testing.T) {
 	cliT = t
 	defer cleanupCorpus()
 	vs.Main(t, vs.Engine{Property: "C16", Name: "clisim-coverage", MaxTape: 20000, Run: runC16})
+}
+
+// ---- scanner-fault configuration: every fingerprinted function is also scanned ----
+
+type recScanner struct {
+	inner    SignatureScanner
+	called   map[string]int
+	n        int
+	failAt   int // fail the failAt-th call (1-based); 0 = never
+	failName string
+	fired    int
+}
+
+func (r *recScanner) ScanTopology(topo *topology.FunctionTopology, funcName string) ([]detection.ScanResult, error) {
+	r.n++
+	r.called[funcName]++
+	if (r.failAt > 0 && r.n == r.failAt) || (r.failName != "" && funcName == r.failName) {
+		r.fired++
+		return nil, fmt.Errorf("simulated transient backend error")
+	}
+	return r.inner.ScanTopology(topo, funcName)
+}
+
+func (r *recScanner) ScanTopologyExact(topo *topology.FunctionTopology, funcName string) (*detection.ScanResult, error) {
+	r.n++
+	r.called[funcName]++
+	return r.inner.ScanTopologyExact(topo, funcName)
+}
+
+func (r *recScanner) Close() error { return nil }
+
+func runC16Scanner(t *vs.Tape, cfg map[string]string) (res vs.Result) {
+	c := vs.Counters{}
+	res.Counters = c
+	nCorpus := 12
+	if cfg["corpus"] != "" {
+		fmt.Sscan(cfg["corpus"], &nCorpus)
+	}
+	seed := uint64(t.Intn(nCorpus, "corpus"))
+	tr, err := getC16Tree(seed)
+	if err != nil {
+		res.Infra = "corpus: " + err.Error()
+		return
+	}
+	js := jsondb.NewScanner()
+	if err := js.LoadDatabase(tr.jsonDB); err != nil {
+		res.Infra = "db: " + err.Error()
+		return
+	}
+	var rels []string
+	for rel, tf := range tr.files {
+		if tf.mustCollect && tf.compilable {
+			rels = append(rels, rel)
+		}
+	}
+	sort.Strings(rels)
+	rel := rels[t.Intn(len(rels), "file")]
+	strict := t.Chance("strict", 1, 2)
+	w := &recScanner{inner: js, called: map[string]int{}}
+	switch t.Weighted("scanfault", 2, 3, 2) {
+	case 1:
+		w.failAt = 1 + t.Intn(6, "scanfault.at")
+	case 2:
+		w.failAt = 1
+	}
+	var out models.FileOutput
+	_, _ = captureBoth(func() {
+		out = ProcessFile(RealFileSystem{}, filepath.Join(tr.target, rel), strict, w)
+	})
+	res.Digest = vs.Hash(fmt.Sprint(seed), rel, fmt.Sprint(strict, w.failAt))
+	res.Nontrivial = w.fired > 0
+	res.Sample = map[string]any{"corpus": seed, "file": rel, "scanner_fault_at_call": w.failAt, "functions": len(out.Functions), "scanner_calls": w.n}
+	c.Inc("files_processed")
+	if w.fired > 0 {
+		c.Inc("scanner_faults_fired")
+	}
+	if out.ErrorMessage != "" {
+		res.Violation = vs.Violationf("C16/unexpected-error", "analysable file %s reported with error %q", rel, out.ErrorMessage)
+		return
+	}
+	for _, fn := range out.Functions {
+		if w.called[fn.Function] == 0 {
+			res.Violation = vs.Violationf("C16/function-not-scanned", "%s: function %s was fingerprinted but never handed to the signature scanner (scanner fault at call %d of %d)", rel, fn.Function, w.failAt, w.n)
+			return
+		}
+		c.Inc("functions_scanned")
+	}
+	if len(out.Functions) < len(tr.files[rel].funcs) {
+		res.Violation = vs.Violationf("C16/function-missing", "%s: %d functions in the report, ground truth has %d", rel, len(out.Functions), len(tr.files[rel].funcs))
+		return
+	}
+	return
+}
+
+func TestVerifC16Scanner(t *testing.T) {
+	cliT = t
+	defer cleanupCorpus()
+	vs.Main(t, vs.Engine{Property: "C16", Name: "clisim-scannerfault", MaxTape: 2000, Run: runC16Scanner})
 }
